@@ -325,64 +325,69 @@ def verdict(ctx, level, coverage, flags, replay_of, assumptions):
 
 # ---- trace judging (binding B) ---------------------------------------------------
 
-def split_traces(path, parts, outdir, reset_key='"k":"reset"'):
-    """Split an ndjson trace file into <= parts files at reset records."""
+def split_traces(path, outdir, max_lines=4000, max_bytes=24 << 20, reset_key='"k":"reset"', splittable=True):
+    """Split an ndjson trace file into chunks of bounded size, at reset records (or at any line
+    when the trace has none: per-record oracles).  Returns [(path, lines)]."""
     os.makedirs(outdir, exist_ok=True)
-    with open(path) as fh:
-        lines = fh.readlines()
-    if not lines:
-        return []
-    starts = [i for i, l in enumerate(lines) if reset_key in l[:200]]
-    if not starts:
-        # a stateless monitor (per-record oracles): any line is a boundary
-        first = 1 if lines and '"k":"meta"' in lines[0][:200] else 0
-        starts = list(range(first, len(lines)))
-        if not starts:
-            starts = [0]
-    head = lines[:starts[0]]
-    total = len(lines) - starts[0]
-    per = max(1, total // max(1, parts))
-    files, cur, cur_n = [], [], 0
-    bounds = starts + [len(lines)]
-    for a, b in zip(bounds, bounds[1:]):
-        cur.extend(lines[a:b])
-        cur_n += b - a
-        if cur_n >= per and len(files) < parts - 1:
-            files.append(cur)
-            cur, cur_n = [], 0
-    if cur:
-        files.append(cur)
     out = []
-    for i, chunk in enumerate(files):
-        p = os.path.join(outdir, "part%d.ndjson" % i)
-        with open(p, "w") as fh:
-            fh.writelines(head)
-            fh.writelines(chunk)
-        out.append((p, len(head) + len(chunk)))
+    head = []
+    cur, cur_bytes = [], 0
+    has_reset = False
+    with open(path) as fh:
+        first = fh.readline()
+        if first and '"k":"meta"' in first[:200]:
+            head = [first]
+        elif first:
+            cur, cur_bytes = [first], len(first)
+            has_reset = reset_key in first[:200]
+
+        def flush():
+            nonlocal cur, cur_bytes
+            if cur:
+                p = os.path.join(outdir, "part%d.ndjson" % len(out))
+                with open(p, "w") as o:
+                    o.writelines(head)
+                    o.writelines(cur)
+                out.append((p, len(head) + len(cur)))
+            cur, cur_bytes = [], 0
+
+        for line in fh:
+            is_reset = reset_key in line[:200]
+            has_reset = has_reset or is_reset
+            boundary = is_reset or not has_reset
+            if splittable and boundary and cur and (len(cur) >= max_lines or cur_bytes >= max_bytes):
+                flush()
+            cur.append(line)
+            cur_bytes += len(line)
+        flush()
     return out
 
 
-def judge_traces(ctx, family, module, cfg, trace_path, parts=None, timeout=1800, xss=None, split=True):
-    """Have TLC evaluate the family's Monitor over every record of trace_path.
-    Returns (flags, records_judged)."""
+def judge_traces(ctx, family, module, cfg, trace_path, parts=None, timeout=1800, xss=None, split=True, heap="2500m"):
+    """Have TLC evaluate the family's Monitor over every record of trace_path.  The trace is cut
+    into bounded chunks (at reset records) that a pool of TLC processes works through.
+    Returns (flags, records_judged).  parts is accepted for compatibility (1 = do not split)."""
     from concurrent.futures import ThreadPoolExecutor
-    n = sum(1 for _ in open(trace_path))
+    if not os.path.exists(trace_path) or os.path.getsize(trace_path) == 0:
+        return [], 0
+    chunks = split_traces(trace_path, ctx.path("split%d" % (ctx.tlc_runs + 1), "x")[:-2], splittable=split and parts != 1)
+    n = sum(c[1] for c in chunks)
     if n <= 1:
         return [], 0
-    if parts is None:
-        parts = max(1, min(NCPU, n // 4000))
-    chunks = split_traces(trace_path, parts, ctx.path("split%d" % (ctx.tlc_runs + 1), "x")[:-2]) if split \
-        else [(trace_path, n)]
 
     def one(ch):
-        return ctx.tlc(family, module, cfg, env={"TRACE_FILE": ch[0]}, workers=1, timeout=timeout, xss=xss)
+        return ctx.tlc(family, module, cfg, env={"TRACE_FILE": ch[0]}, workers=1, timeout=timeout, xss=xss, heap=heap if split else "8g")
 
     flags = []
-    with ThreadPoolExecutor(max_workers=len(chunks)) as ex:
+    with ThreadPoolExecutor(max_workers=max(1, min(NCPU - 2, 12, len(chunks)))) as ex:
         for res, ch in zip(ex.map(one, chunks), chunks):
             if res.distinct < ch[1]:
                 raise Broken("trace monitor consumed %d of %d records of %s" % (res.distinct, ch[1], ch[0]))
             flags.extend(res.flags)
+            try:
+                os.remove(ch[0])
+            except OSError:
+                pass
     return flags, n
 
 
